@@ -3,6 +3,7 @@ package exif2
 import (
 	"sync"
 
+	"github.com/evanoberholster/imagemeta/exif2/tag"
 	"github.com/rs/zerolog"
 )
 
@@ -57,6 +58,21 @@ func (ir *ifdReader) readTagValue() (buf []byte, err error) {
 		return nil, err
 	}
 	return ir.fastRead(int(t.Size()))
+}
+
+// readTagValueMin reads the out-of-line value of the current tag t and
+// makes sure it holds at least min bytes. Embedded tags have no out-of-line value.
+func (ir *ifdReader) readTagValueMin(t Tag, min int) (buf []byte, err error) {
+	if t.IsEmbedded() {
+		return nil, tag.ErrNotEnoughData
+	}
+	if buf, err = ir.readTagValue(); err != nil {
+		return nil, err
+	}
+	if len(buf) < min {
+		return nil, tag.ErrNotEnoughData
+	}
+	return buf, nil
 }
 
 // seekToTag seeks with the underlying reader to given tag value
